@@ -9,6 +9,7 @@
        rose tree below r in the old state with the c-subtree cut out and grafted as the LAST child
        of the node tagged np                                     (attach_is_surgery)
    All three for arbitrary states, nodes and targets; no fuel bound is visible in the statements. *)
+From Coq Require Import Sorting.Permutation.
 From BT Require Import Base.Prelude Base.Str Base.Rose Heap.Forest Heap.ForestWF Heap.ForestOps
      Heap.ForestStep Heap.ForestNames Heap.Abs.
 
@@ -299,4 +300,52 @@ Proof.
       assert (N2 : forall l st, name (fold_left (fun st x => attach st x (Some p)) l st) y = name st y).
       { induction l as [|x l IH]; intros st; [reflexivity|]. cbn [fold_left]. rewrite IH. apply attach_name. }
       rewrite N1, N2. reflexivity.
+Qed.
+
+(* ---------------- sort / any re-ordering of one child list ---------------- *)
+(* re-ordering the children of p (what `sort` does: a permutation of kids p, C01_sort_step) permutes
+   the child subtrees of p and changes no subtree that does not contain p *)
+Theorem reorder_is_tree_permutation s p l :
+  WF s -> Permutation l (kids s p) ->
+  let s' := set_kids s p l in
+  subtree s' p = T (Some p) (name s p) [] (map (subtree s) l)
+  /\ (forall x, ~ In (Some p) (tags (subtree s x)) -> subtree s' x = subtree s x).
+Proof.
+  intros W HP. cbv zeta.
+  assert (W' : WF (set_kids s p l)) by (apply set_kids_perm_WF; assumption).
+  assert (Hfr : forall x, ~ In (Some p) (tags (subtree s x)) -> subtree (set_kids s p l) x = subtree s x).
+  { intros x Hx. apply subtree_frame; [reflexivity|]. intros y Hy. split; [|reflexivity].
+    cbn [kids set_kids]. apply upd_other. intros ->. exact (Hx Hy). }
+  split; [|exact Hfr].
+  rewrite (subtree_unfold _ p W').
+  assert (Ek : kids (set_kids s p l) p = l) by (cbn [kids set_kids]; apply upd_same).
+  rewrite Ek. change (name (set_kids s p l) p) with (name s p). f_equal.
+  apply map_ext_in. intros k Hk. apply Hfr. intros Hin.
+  apply (subtree_members s k p W) in Hin.
+  assert (Hpk : par s k = Some p).
+  { apply (wf_link s W). apply (Permutation_in k HP). exact Hk. }
+  destruct (child_not_above s k p W Hpk) as [Hne Hna].
+  destruct Hin as [->|Hin]; [apply Hne; reflexivity|apply Hna; exact Hin].
+Qed.
+
+(* ---------------- del node.children ---------------- *)
+Lemma del_children_name s p y : name (del_children s p) y = name s y.
+Proof.
+  unfold del_children. generalize (kids s p) as l. intros l. revert s.
+  induction l as [|x l IH]; intros s; [reflexivity|]. cbn [fold_left]. rewrite IH.
+  unfold orphan. destruct (par s x); reflexivity.
+Qed.
+
+(* p becomes a leaf; every subtree not containing p -- in particular the subtree of every detached
+   child, now a root -- is unchanged *)
+Theorem del_children_is_tree_cut s p :
+  WF s ->
+  let s' := del_children s p in
+  subtree s' p = T (Some p) (name s p) [] []
+  /\ (forall x, ~ In (Some p) (tags (subtree s x)) -> subtree s' x = subtree s x).
+Proof.
+  intros W. cbv zeta. destruct (del_children_spec s p W) as [W' [Hsz [_ [Hk Hkq]]]]. split.
+  - rewrite (subtree_unfold _ p W'), Hk, del_children_name. reflexivity.
+  - intros x Hx. apply subtree_frame; [exact Hsz|]. intros y Hy. split; [|apply del_children_name].
+    apply Hkq. intros ->. exact (Hx Hy).
 Qed.
